@@ -107,6 +107,14 @@ ComponentPtr Component::create(const std::string &name) noexcept
 
 bool Component::ComponentImpl::performTestWithHistory(History &history, const ComponentConstPtr &component, TestType type) const
 {
+    // Test the encapsulated components first, an imported component can have them too.
+    for (size_t i = 0; i < mComponent->componentCount(); ++i) {
+        auto currentComponent = mComponent->component(i);
+        if (!currentComponent->pFunc()->performTestWithHistory(history, currentComponent, type)) {
+            return false;
+        }
+    }
+
     if (mComponent->isImport()) {
         auto model = mComponent->importSource()->model();
         if (model == nullptr) {
@@ -143,13 +151,6 @@ bool Component::ComponentImpl::performTestWithHistory(History &history, const Co
             if (!u->isDefined() || (model == nullptr) || !model->hasUnits(u)) {
                 return false;
             }
-        }
-    }
-
-    for (size_t i = 0; i < mComponent->componentCount(); ++i) {
-        auto currentComponent = mComponent->component(i);
-        if (!currentComponent->pFunc()->performTestWithHistory(history, currentComponent, type)) {
-            return false;
         }
     }
 
